@@ -8,6 +8,7 @@ from .. import refmodel as R
 from .. import shapes as S
 
 PROPERTY = "C18"
+VIA_HISTORY_EVERY = 7      # every k-th shape case is also run on an object that reached its definition through edits
 EXPLORERS = ['E1']
 RULE = ("E1: curves, surfaces and volumes x rational (positive weights: coded, spike, seeded) / non-rational x degrees x knot "
         "vectors (K(p,B,G) curves, K'(p) products for surfaces/volumes, unclamped) x pairwise different sizes x nets (coded, "
